@@ -324,7 +324,7 @@ PROPS = {
         'level_text': "PARTIAL. Decidable theorems over the regenerated table of ALL log statements and error constructions (270+): no argument mentions a secret-bearing identifier (trusted word list with 3 named exceptions), %+v/%v only on "
                       "errors / the masked configuration / provider metadata, the start-up banner masks every secret-bearing field incl. redis.uri, request attributes never read header maps, cookie values or raw queries. "
                       "Runtime monitor over every explored history, schedule and fault sequence and over real start-ups. Third-party libraries' own logging is covered by the monitor only.",
-        'level_note': "Trusted: Lean kernel; the log-site extractor (syntactic: receiver looks like a logger); the classification word list; errors can still carry provider response bodies (5xx text) - not secrets of wonderwall. OpenTelemetry span attributes are outside 'log line'.",
+        'level_note': "Trusted: Lean kernel; the log-site extractor (syntactic: receiver looks like a logger; it also drops string-literal arguments and emits the remaining ones as code-point lists, since the kernel decodes string literals very slowly - `tables_aligned` checks the shapes agree, `word_codes_are_the_words` that the coded word list is the readable one); the classification word list; errors can still carry provider response bodies (5xx text) - not secrets of wonderwall. OpenTelemetry span attributes are outside 'log line'.",
         'technique': 'Lean 4 decide over the regenerated log/error-site table + process-wide runtime log monitor + real-binary start-up scan',
         'trusted': ["identifier classification (secretWords / exceptions in Proofs/C18.lean)"],
         'assumptions': ["classification of identifiers is trusted"],
